@@ -89,7 +89,7 @@ func cfgs() map[string]*propCfg {
 	add(&propCfg{id: "C17", rule: "cases: tapes of every successful parse of the C02/C08 generators (both kernels, both string modes) and deserialized tapes of edited documents, validated by an independent tape-format checker written from the README. Non-trivial: >=2 nesting levels or >=2 roots or >=1 NOP run; distinct by tape hash."})
 	add(&propCfg{id: "C18", rule: "cases: float64 bit patterns: every binade x {min,max,random mantissas}, every power of ten 1e-323..1e308 +-2 ulp, +-64 ulp around the 1e-6/1e21 notation switches, all subnormal powers of two, integers x 10^k, 1..17 significant-digit classes, uniform random patterns; observed via SetFloat+StringCvt+MarshalJSON and via parsing a literal. Oracle: byte equality with encoding/json plus independent round-trip/shortest/format checks. Non-trivial: everything except integers of magnitude <= 16; distinct by bit pattern and path."})
 	add(&propCfg{id: "C19", fuzz: "FuzzC19", hangRerun: true, rule: "cases: valid serialized blobs (4 modes) mutated at byte level (truncation, bit flip, substitution, splice) and structure-aware (decode framing, mutate tags/values/sizes/block types, re-frame), plus random bytes; inputs declaring sections > 4 MiB are skipped and counted. Non-trivial: mutant passes framing far enough that tape reconstruction starts; distinct by FNV-64 of the bytes."})
-	add(&propCfg{id: "C20", race: true, raceRun: "^TestC20", run: "^TestC20NONE$", hangRerun: true, rule: "cases: sets of 2..64 goroutine programs (Parse/ParseND/ParseNDStream, traversal, Clone+edit, Serialize 4 modes, Deserialize) on goroutine-private objects, run concurrently under -race with several GOMAXPROCS values; each transcript compared with the same program run alone. Non-trivial: >=4 goroutines overlapped and >=2 used the same codec pool kind; distinct by program-set hash."})
+	add(&propCfg{id: "C20", race: true, raceRun: "^TestC20", run: "^TestC20NONE$", hangRerun: true, quickTO: 20 * time.Minute, rule: "cases: sets of 2..64 goroutine programs (Parse/ParseND/ParseNDStream, traversal, Clone+edit, Serialize 4 modes, Deserialize) on goroutine-private objects, run concurrently under -race with several GOMAXPROCS values; each transcript compared with the same program run alone. Non-trivial: >=4 goroutines overlapped and >=2 used the same codec pool kind; distinct by program-set hash."})
 	return m
 }
 
